@@ -389,6 +389,11 @@ def snake_removal(self, left=False):
                     or not left_snake and diagram.offsets[cup] != wire
                 if not_yankable:
                     continue
+                cup_dom = diagram.boxes[cup].dom
+                cap_cod = diagram.boxes[cap].cod
+                if left_snake and cup_dom[:1] != cap_cod[1:]\
+                        or not left_snake and cap_cod[:1] != cup_dom[1:]:
+                    continue  # the outer legs differ: not a snake equation.
                 return cup, cap, obstructions, left_snake
         return None
 
